@@ -80,7 +80,7 @@ def _volatile(fi, how, calls):
     install_env()
     f = FORMULAS[fi]
     d = {P + 'A2': 1, P + 'A1': f, P + 'B1': '=%sA1' % P, P + 'C1': '=IF(TRUE,%sA1,0)' % P, P + 'D1': '=%sA2+1' % P,
-         P + 'A0': 0, P + 'R1': '=SUM(%sA1:A1,%sA0)' % (P, P), P + 'R2': '=MAX(%sA1:A1)+0' % P}
+         P + 'A9': 0, P + 'R1': '=SUM(%sA1:A1,%sA9)' % (P, P), P + 'R2': '=MAX(%sA1:A1)+0' % P}
     m = formulas.ExcelModel().from_dict(d).finish(complete=False)
 
     def val(v):
@@ -92,7 +92,7 @@ def _volatile(fi, how, calls):
         if isinstance(a, (int, float)) and not isinstance(a, bool):
             # cells reaching the volatile cell THROUGH A RANGE see the same single value
             r1, r2 = val(sol[P + 'R1']), val(sol[P + 'R2'])
-            if not (abs(r1 - a) < 1e-9 and abs(r2 - a) < 1e-9):
+            if not all(isinstance(r, (int, float)) and abs(r - a) < 1e-9 for r in (r1, r2)):
                 return (a, 'range sees %r / %r' % (r1, r2), c)
         return a, b, c
     if how == 0:                                         # the loaded model
